@@ -35,6 +35,7 @@ def obligations(tier):
     for op in c12.OPS:
         for ai in (True, False):
             for nxt in ("insert", "remove"):
-                obs.append({"id": f"oserror/{op}/{'ai' if ai else 'noai'}/then-{nxt}", "harness": "h_crash", "params": {"op": op, "ai": ai, "mode": "oserror", "next": nxt}, "budget_s": 120})
+                for rew in (False, True):
+                    obs.append({"id": f"oserror/{op}/{'ai' if ai else 'noai'}/then-{nxt}{'/after-rewrite' if rew else ''}", "harness": "h_crash", "params": {"op": op, "ai": ai, "mode": "oserror", "next": nxt, "pre_rewrite": rew}, "budget_s": 120})
     obs.append({"id": "twin/oserror", "harness": "h_crash", "params": {"op": "update", "ai": True, "mode": "oserror", "twin": True}, "budget_s": 60})
     return obs
